@@ -74,7 +74,7 @@ def new_scratch(tag="t", long_path=False, via_symlink=False):
         p = os.path.join(base, "site", "current", "..")
         _scratch_base[p] = base
         return p
-    if os.environ.get("DRFVERIF_SPECIAL_PATHS") == "1":  # TEMP: switched on by default once F17 is fixed in /repo
+    if os.environ.get("DRFVERIF_PLAIN_PATHS") != "1":
         # data sets live where users put them: a component with blanks and with characters that are special
         # in glob patterns and regular expressions
         p = os.path.join(p, "run[3] (a+b)")
